@@ -73,3 +73,55 @@ Theorem C16_exit_inside_ifok_example :
   mout t_exit_in_ifok c_ifok = Some (B "bob"%string, Some EInterrupt) /\ rout t_exit_in_ifok c_ifok = (B "bob"%string, SExit).
 Proof. exact exit_in_ifok_agrees. Qed.
 Print Assumptions C16_exit_inside_ifok_example.
+
+(* ---- include depth and budget are only termination devices (Proofs/FuelProofs.v) ---- *)
+From DT Require Import Proofs.FuelProofs.
+
+(* the include renderer answers at least as often with more depth and more budget, with the same
+   answers *)
+Theorem C16_render_inc_monotone : forall flits lookup d d' b b',
+  (b <= b')%nat -> (d <= d')%nat ->
+  inc_le (render_inc flits lookup b d) (render_inc flits lookup b' d').
+Proof. exact render_inc_le. Qed.
+Print Assumptions C16_render_inc_monotone.
+
+(* Write(): an Out result at include depth d (and budget b) is the result at every larger depth
+   (and budget) *)
+Theorem C16_depth_monotone : forall flits lookup b b' d d' t c w c' w' e,
+  (b <= b')%nat -> (d <= d')%nat ->
+  render flits lookup b d t c w = Out c' w' e -> render flits lookup b' d' t c w = Out c' w' e.
+Proof. exact render_monotone. Qed.
+Print Assumptions C16_depth_monotone.
+
+(* (the budget through includes: the same theorem with d = d') *)
+Theorem C16_render_budget_monotone : forall flits lookup b b' d t c w c' w' e,
+  (b <= b')%nat ->
+  render flits lookup b d t c w = Out c' w' e -> render flits lookup b' d t c w = Out c' w' e.
+Proof. exact render_budget_monotone. Qed.
+Print Assumptions C16_render_budget_monotone.
+
+(* the reference side *)
+Theorem C16_ref_inc_monotone : forall flits rlookup d d' b b',
+  (b <= b')%nat -> (d <= d')%nat ->
+  rinc_le (ref_inc flits rlookup b d) (ref_inc flits rlookup b' d').
+Proof. exact ref_inc_le. Qed.
+Print Assumptions C16_ref_inc_monotone.
+
+Theorem C16_ref_render_monotone : forall flits rlookup b b' d d' t e o e1 eo,
+  (b <= b')%nat -> (d <= d')%nat ->
+  ref_render flits rlookup b d t e = (o, e1, eo, true) -> ref_render flits rlookup b' d' t e = (o, e1, eo, true).
+Proof. exact ref_render_monotone. Qed.
+Print Assumptions C16_ref_render_monotone.
+
+(* whole renders: if the reference render answers at (budget b, depth d), Write() answers Out at
+   every (b', d') above, and agrees *)
+Theorem C16_render_refines_any_larger_fuel : forall flits lookup rlookup,
+  lookup_ok lookup rlookup ->
+  (forall names t, rlookup names = Some t -> forallb (wf_supported true) t = true) ->
+  forall b b' d d' items c w, (b <= b')%nat -> (d <= d')%nat ->
+  forallb (wf_supported true) items = true -> Inv [] c -> w_fail w = None ->
+  forall o e1 s, ref_items flits rlookup b (ref_inc flits rlookup b d) items (abs c) = (o, e1, s) -> sig_dom s ->
+  exists c' w', render flits lookup b' d' (compile_tpl items) c w = Out c' w' (ref_err s) /\
+                wr_bytes w' = wr_bytes w ++ o /\ w_fail w' = None /\ post [] s c' e1.
+Proof. exact render_refines_any_larger_fuel. Qed.
+Print Assumptions C16_render_refines_any_larger_fuel.
